@@ -162,7 +162,10 @@ func GenTime(t *rapid.T, opts FontOpts) time.Time {
 			return tm.UTC()
 		}
 		off := 3600*rapid.IntRange(-12, 14).Draw(t, "zoneh") + 60*rapid.SampledFrom([]int{15, 30, 45, 0}).Draw(t, "zonem")
-		return tm.In(time.FixedZone("", off))
+		// zone names that are not abbreviations of the kind a date parser
+		// accepts (IANA names, offsets, blanks, digits)
+		name := rapid.SampledFrom([]string{"", "", "Europe/Berlin", "Kolkata", "X", "+0545", "GMT+1", "CEST", "Local", "my zone", "ab", "ABCDEF", "A1", "(CET)", "UTC"}).Draw(t, "oddzonename")
+		return tm.In(time.FixedZone(name, off))
 	}
 }
 
